@@ -860,7 +860,11 @@ def rule_exact_arith(ctx, rule, ops):
                 x = Fraction(env["a"], env["b"]) if ka == "Rational" else Fraction(env["a"])
                 rest = syms[2:] if ka == "Rational" else syms[1:]
                 y = Fraction(env[rest[0]], env[rest[1]]) if kb == "Rational" else Fraction(env[rest[0]])
-                want = "error" if (opn == "/" and y == 0) else {"+": lambda: x + y, "-": lambda: x - y, "*": lambda: x * y, "/": lambda: x / y}[opn]()
+                import math
+                want = "error" if (opn in ("/", "floor-quotient", "floor-remainder") and y == 0) else {
+                    "+": lambda: x + y, "-": lambda: x - y, "*": lambda: x * y, "/": lambda: x / y,
+                    "floor-quotient": lambda: Fraction(math.floor(x / y)),
+                    "floor-remainder": lambda: x - math.floor(x / y) * y}[opn]()
                 hit = []
                 for p in good:
                     try:
